@@ -58,6 +58,7 @@ type syncState struct {
 	val      Value
 	has      bool
 	waiters  int
+	pool     []Value
 	signals  int
 }
 
